@@ -15,6 +15,14 @@ CHECKS = {
         text="The real recvRecord is handed one ARBITRARY symbolic record (symbolic type/version/body, enumerated length) while an honest writer has emitted two records; under the MAC/AEAD unforgeability assumption z3 proves that acceptance implies the yielded type and plaintext are exactly those of the record the writer sent at the reader's sequence number, and that every rejection is one of the record layer's integrity/decoding exceptions. SSLv2-framed bytes on a protected connection and TLS 1.3 inner-plaintext de-padding are separate obligations.",
         note="Unforgeability and bijectivity are assumptions (stated in evidence); block/stream ciphers are modelled statelessly, which only strengthens the adversary; lengths enumerated; timing not modelled.",
         design="5/C02", technique=T),
+    "C08": dict(
+        text="Parser totality: every message class (constructed as _getMsg constructs it) and every extension class in every context is run on arbitrary symbolic bytes of each enumerated length; z3 shows that every feasible path ends in a value or in an exception type that _getMsg maps to an alert (SyntaxError family, TLSIllegalParameterException) and that the read index stays inside the buffer. The record layer's handling of undecodable framing is covered by C02.2.",
+        note="Bounded by the enumerated input lengths (quick: extension payloads 0..8, messages up to 49 bytes); X.509 bodies are opaque; wall time and heap are not measured (no allocation sized by an unchecked peer length is the proxy); connection-level obligations are being added.",
+        design="5/C08", technique=T),
+    "C15": dict(
+        text="Parse-first identity: for every message and extension class and arbitrary symbolic input bytes of each enumerated length, z3 proves on every accepting path that the parser consumed exactly the declared length and that write(parse(b)) == b byte for byte (for the four classes that normalise by design: that the normal form is a fixed point). This gives at once: no trailing bytes swallowed, no inner/outer length disagreement accepted, no read past the end, and parse(write(v)) == v for every v in the image of parse.",
+        note="Bounded by the enumerated lengths (extension payloads 0..8 quick / 0..16 thorough; messages up to 49/57 bytes); X.509 bodies opaque; value-first checks for values outside the image of parse (2^16/2^24-sized lists) are not covered.",
+        design="5/C15", technique=T),
     "C12": dict(
         text="For every enumerated (version, MAC, body length, block size) the real ct_check_cbc_mac_and_pad is executed on a fully symbolic body, sequence number and content type and z3 proves it equivalent to the plain specification (MAC modelled as an uninterpreted function of its whole input); the ct_* helpers are proved for all 32-bit arguments. Bounded by the enumerated lengths (quick: 5 lengths per MAC + two window-edge lengths; thorough: every n <= 80 and window edges to 400).",
         note="HMAC/SSLv3 MAC abstracted as uninterpreted function per input length; lengths outside the enumerated shapes are not covered; z3 and the symx engine are trusted (engine validated by lib/selfcheck.py and native replay of every counterexample).",
